@@ -193,6 +193,7 @@ class Ctx:
 
 
 def build_base(ctx):
+    apiexec.reset_shared()
     objs = {}
     for i, c in enumerate(ctx.base_calls):
         objs[i + 1] = apiexec.execute(c, objs)
